@@ -7,7 +7,20 @@
    ...; found by scanning that package, not listed by hand).  Today there are only `range`
    statements; a row for a call would read (pkg, file, function, "call <fun>", callee).
 
-   `expected` is the set of map ranges the GenDet model accounts for.  Go randomises the order
+   What is compared (session 2): NOT the names of files, functions and variables (a rename, a
+   helper extraction, a changed loop form would break such a tie although nothing changed) but,
+   per source of iteration order, the triple
+       (package, kind of the map's key type, EFFECT CLASS of the loop body)
+   as a sorted list (`gen_order_sources`).  The effect class is computed by the translator from
+   the loop body's syntax, following calls into functions of the same package: can the body
+   return (a search), append to / assign to / set a constant in / delete from a variable that
+   outlives the iteration, call a function that writes to the outside (log, fmt, os, sort,
+   mutating slices functions), and is a variable it writes sorted later in the function
+   (`then-sorted`).  So the tie now also pins WHAT each loop may do with the order — which the
+   name-based tie did not — and no longer where it stands or what it is called.  The old
+   detailed list (`gen_map_ranges`) is still regenerated, for diagnostics only.
+
+   `expected_sources` is the set of map ranges the GenDet model accounts for.  Go randomises the order
    of each of them; the model (GenDetModel.v) takes that order as an argument and Props/C14.v
    proves the generators' tables independent of it:
 
@@ -15,6 +28,11 @@
                                                                 is the GenDecl of the one spec looked
                                                                 for: at most one entry matches
                                                                 (lookup_first, C14_lookup_first)
+   gencommon/imports.go   ImportHandler.unusedName ih.imports  (fix 0af0409) `bound(candidate)`: returns
+                                                                true at the first entry whose alias is
+                                                                the candidate, i.e. an existsb over the
+                                                                entries: the same in every order
+                                                                (name_bound, C14_name_bound)
    gencommon/imports.go   ImportHandler.UseName  ih.imports    (fix 27a8c65) sets the inUse flag of
                                                                 every entry whose alias equals the
                                                                 given name: each write replaces one
@@ -62,21 +80,27 @@ Import ListNotations.
 From GTgen Require Import MapRangeGen.
 Local Open Scope string_scope.
 
-Definition expected : list (string * string * string * string * string) := [
-  ("gencommon", "comments.go", "CommentsFromObj", "cmap", "map[ast.Node][]*ast.CommentGroup");
-  ("gencommon", "imports.go", "ImportHandler.UseName", "ih.imports", "map[string]*gencommon.ImportDesc");
-  ("gencommon", "imports.go", "ImportHandler.GetActive", "ih.imports", "map[string]*gencommon.ImportDesc");
-  ("gencommon", "interface.go", "allpkgs.findPKgByName", "pkg.Imports", "map[string]*packages.Package");
-  ("gencommon", "interface.go", "allpkgs.namedTypeToInterface", "methodsToAdd", "map[string]*gencommon.Method");
-  ("genum/gen", "generate.go", "processDuplicates", "data", "map[uint64]gen.Values");
-  ("gsort/gen", "sorter_desc.go", "createSorterDesc", "descs", "map[string]*gen.SorterDesc");
-  ("gsort/gen", "sorter_desc.go", "createSorterDesc", "descs", "map[string]*gen.SorterDesc")
+(* (package, key kind, effect class), sorted.  In the order of the table above:
+   CommentsFromObj (interface key, return); unusedName, findPKgByName (return);
+   UseName (set-const); GetActive (append, then sorted); namedTypeToInterface (append: consumers
+   sort or file by name); processDuplicates (assigns the stripped traits, logs, then sorted);
+   createSorterDesc: Validate loop (return), result loop (append: the caller sorts). *)
+Definition expected_sources : list (string * string * string) := [
+  ("gencommon", "interface", "return");
+  ("gencommon", "string", "append");
+  ("gencommon", "string", "append+then-sorted");
+  ("gencommon", "string", "return");
+  ("gencommon", "string", "return");
+  ("gencommon", "string", "set-const");
+  ("genum/gen", "uint64", "assign+call:log.Printf+call:slices.DeleteFunc+then-sorted");
+  ("gsort/gen", "string", "append");
+  ("gsort/gen", "string", "return")
 ].
 
-Lemma tie_map_ranges : gen_map_ranges = expected.
+Lemma tie_map_ranges : gen_order_sources = expected_sources.
 Proof. reflexivity. Qed.
 
-(* Process-wide state.  gen_pkg_state lists every package-level variable of the generator
+(* Process-wide state.  gen_state_types lists (package, type) of every package-level variable of the generator
    packages whose type is not a basic type: state that survives from one generation to the next
    inside one process ("repeated runs in one process").  Accounted for:
 
@@ -90,20 +114,25 @@ Proof. reflexivity. Qed.
    genum/gerror/gsort  *template.Template         parsed once at package initialisation from the
                                                   embedded template text, only executed afterwards
 
+   Not listed (and therefore free to come and go): variables of a basic type, and READ-ONLY tables —
+   variables every use of which only reads plain elements (operand of range / len / an index or
+   selector expression that is read), e.g. genum's reservedIdentifiers.  Names and files of the
+   variables do not enter, only (package, type).
+
    A new cache (map, sync.Map, slice, pointer ...) at package level breaks this tie; ./check C14
    then runs the widened search, whose twin-package batches generate equally named types of
    different packages in one process in both orders.                                          *)
-Definition expected_state : list (string * string * string * string) := [
-  ("gencommon", "defined_interfaces.go", "ContextInterface", "*types.Interface");
-  ("gencommon", "defined_interfaces.go", "ErrorInterface", "*types.Interface");
-  ("gencommon", "defined_interfaces.go", "iFaceCache", "map[string]*types.Interface");
-  ("gencommon", "defined_interfaces.go", "iFaceCacheMu", "sync.Mutex");
-  ("genum/gen", "generate.go", "enumTemplate", "*template.Template");
-  ("gerror/gen", "generate.go", "sortTemplate", "*template.Template");
-  ("gsort/gen", "generate.go", "sortTemplate", "*template.Template")
+Definition expected_state_types : list (string * string) := [
+  ("gencommon", "*types.Interface");
+  ("gencommon", "*types.Interface");
+  ("gencommon", "map[string]*types.Interface");
+  ("gencommon", "sync.Mutex");
+  ("genum/gen", "*template.Template");
+  ("gerror/gen", "*template.Template");
+  ("gsort/gen", "*template.Template")
 ].
 
-Lemma tie_pkg_state : gen_pkg_state = expected_state.
+Lemma tie_pkg_state : gen_state_types = expected_state_types.
 Proof. reflexivity. Qed.
 
 Print Assumptions tie_map_ranges.
